@@ -143,7 +143,7 @@ func checkC28(c *Ctx) {
 		var rebuilt []*ssa.Call
 		enterRA := InModulePkg(ra)
 		for _, st := range DeepCalls(ra, func(g *ssa.Function) bool { return enterRA(g) && Origin(g) != Origin(ra) }) {
-			if f := Callee(st.Call().Common()); f != nil && PkgPathOf(f) == ExprPkg && strings.HasPrefix(f.Name(), "New") {
+			if f := Callee(st.Call().Common()); f != nil && PkgPathOf(f) == ExprPkg && strings.HasPrefix(NameOf(f), "New") {
 				if call, ok := st.Instr.(*ssa.Call); ok {
 					rebuilt = append(rebuilt, call)
 				}
@@ -152,7 +152,7 @@ func checkC28(c *Ctx) {
 		missing := func(v ssa.Value) string {
 			for _, rb := range rebuilt {
 				if !DependsOnVia(nil, v, func(g *ssa.Function) bool { return enterRA(g) && Origin(g) != Origin(ra) }, func(w ssa.Value) bool { return w == ssa.Value(rb) }, nil) {
-					return rb.Call.StaticCallee().Name() + " at " + c.Prog.Pos(rb.Pos())
+					return NameOf(rb.Call.StaticCallee()) + " at " + c.Prog.Pos(rb.Pos())
 				}
 			}
 			return ""
@@ -362,7 +362,7 @@ func checkEqual(c *Ctx, eq *ssa.Function, model map[string]*NodeModel) {
 						if a := pair(x.Call.Args[0], x.Call.Args[1]); a != "" {
 							covers[x] = []string{a}
 						}
-					} else if f.Name() == "Equal" && f.Signature.Recv() != nil && len(x.Call.Args) == 2 &&
+					} else if NameOf(f) == "Equal" && f.Signature.Recv() != nil && len(x.Call.Args) == 2 &&
 						((x.Call.Args[0] == e1 && x.Call.Args[1] == e2) || (x.Call.Args[0] == e2 && x.Call.Args[1] == e1)) {
 						// the node's own Equal method: covers the accessors it compares
 						covers[x] = ownEqualCovers(c, f, m)
@@ -445,7 +445,7 @@ func ownEqualCovers(c *Ctx, f *ssa.Function, m *NodeModel) []string {
 		if call, ok := v.(*ssa.Call); ok && !call.Call.IsInvoke() {
 			g := call.Call.StaticCallee()
 			if g != nil && len(call.Call.Args) == 1 && isParamOrCopy(call.Call.Args[0], p) {
-				if fi, ok := m.AccField[g.Name()]; ok {
+				if fi, ok := m.AccField[NameOf(g)]; ok {
 					return fi, true
 				}
 			}
